@@ -50,6 +50,22 @@ def run(ctx, R):
     R.rule("r1", "from_query_and_arguments: Ok iff no variable is missing, no argument unused, every value valid; errors name exactly the offenders")
     R.rule("r2", "Type::is_valid_value equals the definition on all types of depth <= 2 x scalar and nested list values")
     R.rule("r3", "infer_variable_type per operator equals the documented inference rule")
+    R.rule("r4", "a variable's required type is the greatest common subtype of the types inferred at all its uses "
+                 "(Type::intersect decided under C17 r1; every use collected and a failed intersection an error, C11 r5)")
+    from tfv.core import Report
+    from . import C17, C11
+    R17 = Report("C17", ctx.tier, 0)
+    C17.run(ctx, R17)
+    bad = [v for v in R17.violations if v["rule"] in ("r1", "engine") or "intersect" in v["key"]]
+    R.check(not bad, "r4", "variable-type-is-meet-of-uses/intersect", "-",
+            "Type::intersect is not the greatest common subtype (%s): a variable used at two places gets a type that is too wide, "
+            "so ill-typed argument values are accepted (or too narrow, so valid ones are rejected)" % [v["key"] for v in bad][:3],
+            {"c17_instances": len(R17.instances)})
+    R11 = Report("C11", ctx.tier, 0)
+    C11.run(ctx, R11)
+    bad = [v for v in R11.violations if v["rule"] == "r5"]
+    R.check(not bad, "r4", "variable-type-is-meet-of-uses/collection", "-",
+            "variable uses are not all collected / a failed intersection is not an error: %s" % [v["key"] for v in bad][:3])
     intr = intr_all()
 
     # ---------------- r1
